@@ -1150,6 +1150,24 @@ def _rejection(run, rng, vd):
     expect_raise("block_split", "northing with a single element (broadcastable)", lambda: vd.block_split((east, north[:1]), spacing=sp), lambda: vd.block_split((east, north), spacing=sp))
     expect_raise("block_split", "extra coordinate with a single element (broadcastable)", lambda: vd.block_split((east, north, east[:1]), spacing=sp), lambda: vd.block_split((east, north, east), spacing=sp))
     expect_raise("rolling_window", "northing (1, n) against easting (n,)", lambda: vd.rolling_window((east, north.reshape(1, -1)), size=span / 2, spacing=span / 4), lambda: vd.rolling_window((east, north), size=span / 2, spacing=span / 4))
+    # an extra (ignored) coordinate whose shape differs from easting / northing: the returned indices are documented as usable on
+    # every coordinate array, so it must be refused like a mismatch between easting and northing
+    extra_bad = (east, north, east[:-1])
+    extra_2d = (east.reshape(2, -1), north.reshape(2, -1), east.reshape(-1, 2))
+    extra_ok = (east, north, east * 0.5)
+    expect_raise("rolling_window", "extra coordinate shorter than easting", lambda: vd.rolling_window(extra_bad, size=span / 2, spacing=span / 4), lambda: vd.rolling_window(extra_ok, size=span / 2, spacing=span / 4))
+    expect_raise("rolling_window", "extra coordinate transposed", lambda: vd.rolling_window(extra_2d, size=span / 2, spacing=span / 4), lambda: vd.rolling_window(tuple(x.reshape(2, -1) for x in extra_ok), size=span / 2, spacing=span / 4))
+    expect_raise("expanding_window", "extra coordinate shorter than easting", lambda: vd.expanding_window(extra_bad, center=(east[0], north[0]), sizes=[span]), lambda: vd.expanding_window(extra_ok, center=(east[0], north[0]), sizes=[span]))
+    expect_raise("block_split", "extra coordinate shorter than easting", lambda: vd.block_split(extra_bad, spacing=sp), lambda: vd.block_split(extra_ok, spacing=sp))
+    expect_raise("BlockReduce.filter", "extra coordinate shorter than easting", lambda: vd.BlockReduce(np.mean, spacing=sp, drop_coords=False).filter(extra_bad, data), lambda: vd.BlockReduce(np.mean, spacing=sp, drop_coords=False).filter(extra_ok, data))
+    expect_raise("Trend.fit", "extra coordinate shorter than easting", lambda: vd.Trend(1).fit(extra_bad, data), lambda: vd.Trend(1).fit(extra_ok, data))
+    expect_raise("train_test_split", "extra coordinate shorter than easting", lambda: vd.train_test_split(extra_bad, data, random_state=0), lambda: vd.train_test_split(extra_ok, data, random_state=0))
+    # geographic regions with the out-of-range bound at the "other" end (W above 360 with E in range, E below -180, S above 90, N below -90)
+    for kind, bad_reg in (("W above 360 with E in range", [370.0, 20.0, -10.0, 10.0]), ("E below -180 with W in range", [-170.0, -190.0, -10.0, 10.0]),
+                          ("S above 90", [0.0, 20.0, 95.0, 80.0]), ("N below -90", [0.0, 20.0, -80.0, -95.0]), ("W above 360, wide", [400.0, 50.0, -10.0, 10.0])):
+        expect_raise("longitude_continuity", "invalid geographic region (%s)" % kind, (lambda r: lambda: vd.longitude_continuity(None, r))(bad_reg), lambda: vd.longitude_continuity(None, [350.0, 20.0, -10.0, 10.0]))
+        expect_raise("longitude_continuity", "invalid geographic region with coordinates (%s)" % kind,
+                     (lambda r: lambda: vd.longitude_continuity([np.array([5.0, 10.0]), np.array([0.0, 1.0])], r))(bad_reg), lambda: vd.longitude_continuity([np.array([5.0, 10.0]), np.array([0.0, 1.0])], [350.0, 20.0, -10.0, 10.0]))
     expect_raise("expanding_window", "northing with a single element (broadcastable)", lambda: vd.expanding_window((east, north[:1]), center=(east[0], north[0]), sizes=[span]), lambda: vd.expanding_window((east, north), center=(east[0], north[0]), sizes=[span]))
     expect_raise("block_split", "neither shape nor spacing", lambda: vd.block_split((east, north)), lambda: vd.block_split((east, north), spacing=sp))
     expect_raise("block_split", "both shape and spacing", lambda: vd.block_split((east, north), spacing=sp, shape=(2, 2)), lambda: vd.block_split((east, north), shape=(2, 2)))
